@@ -125,8 +125,13 @@ type Scenario struct {
 	FailAt  int // 1-based index of the transport write/writev call that fails (0 = none)
 	Buffered int // > 0: the library's write-buffered transport of this size over a connection under the controller; -1: its unbuffered wrapper
 	Big      bool
+	Consume  bool // a user handler consumes every exception (the channel's own failure handling must not depend on the tail)
 	conn    *ctlConn
 }
+
+type consumeExc struct{}
+
+func (consumeExc) HandleException(ctx netty.ExceptionContext, ex netty.Exception) {}
 
 type ctlExec struct {
 	c *rt.Controller
@@ -191,6 +196,9 @@ func runScenario(sc *Scenario, strat rt.Strategy) *rt.Controller {
 		ch = netty.NewChannel()(1, parent, pl, trx, ctlExec{c})
 	} else {
 		ch = netty.NewAsyncWriteChannel(sc.Qcap, sc.Until)(1, parent, pl, trx, ctlExec{c})
+	}
+	if sc.Consume {
+		pl.AddLast(consumeExc{})
 	}
 	netty.NvAttach(pl, ch)
 	staleWriter := ch.Writer()
